@@ -219,6 +219,19 @@ def judge(targets, opts, wd, priors, perm, hash_other=None):
     b = run_decoy(targets, opts, wd, 'b', priors[1])
     if not b['ok'] or b['bytes'] != a['bytes']:
         out.append(('reproducible-rng', 'reproducible-rng', {'priors': priors, 'second': b.get('exc')}))
+    # reproducible whatever the process did before: another call on the same targets with MORE fixed positions
+    # (and another seed) in between must not change what the original options produce
+    more = dict(opts, keep_peptide_nterm='true', keep_peptide_cterm='true',
+                non_shuffle_pattern=','.join(sorted(set((opts['non_shuffle_pattern'] or '').split(',') + ['K', 'P', 'L'])
+                                                    - {''})),
+                seed=(opts['seed'] or 0) + 17)
+    x = run_decoy(targets, more, wd, 'x', priors[1])
+    a2 = run_decoy(targets, opts, wd, 'a2', priors[0])
+    if x['ok'] and (not a2['ok'] or a2['bytes'] != a['bytes']):
+        out.append(('reproducible-history', 'reproducible-history',
+                    {'intervening_options': {k: more[k] for k in ('keep_peptide_nterm', 'keep_peptide_cterm',
+                                                                  'non_shuffle_pattern', 'seed')},
+                     'second': a2.get('exc')}))
     permuted = [targets[i] for i in perm]
     c = run_decoy(permuted, opts, wd, 'c', priors[0])
     dups = len({s for _, s in targets}) < len(targets)
@@ -291,10 +304,11 @@ def run_case(seed, task, tier):
         out['invalid_reason'] = a.get('exc')
         out['executions'] = 1
         return out
-    out['executions'] = 1 if opts['seed'] is None else (4 if hash_other is not None else 3)
+    out['executions'] = 1 if opts['seed'] is None else (6 if hash_other is not None else 5)
     out['faults']['rng_state_perturbed'] = 0 if opts['seed'] is None else 1
     out['faults']['arrival_order_permuted'] = 0 if opts['seed'] is None else 1
     out['faults']['hashseed_changed'] = 1 if hash_other is not None else 0
+    out['faults']['intervening_call_other_options'] = 0 if opts['seed'] is None else 1
     probes[opts['method']] = 1
     if opts['seed'] is None:
         probes['seed_none'] = 1
